@@ -37,6 +37,41 @@ def parseChunks : Nat → List Nat → Option (List (List Nat))
       | none => none
     | _ => none
 
+/-- the same function without measuring the whole remaining file at every chunk (what the compiled driver runs; the equation
+    below makes the compiler substitute it, so files with tens of thousands of chunks are judged in linear time) -/
+def parseChunksFast : Nat → List Nat → Option (List (List Nat))
+  | 0, bs => if bs = [] then some [] else none
+  | n+1, bs =>
+    match bs with
+    | 77 :: 84 :: 114 :: 107 :: r =>
+      match rd32 r with
+      | some (len, r') =>
+        if (r'.take len).length = len then
+          match parseChunksFast n (r'.drop len) with
+          | some cs => some (r'.take len :: cs)
+          | none => none
+        else none
+      | none => none
+    | _ => none
+
+@[csimp] theorem parseChunks_eq_fast : @parseChunks = @parseChunksFast := by
+  funext n
+  induction n with
+  | zero => funext bs; simp [parseChunks, parseChunksFast]
+  | succ n ih =>
+    funext bs
+    unfold parseChunks parseChunksFast
+    split
+    · split
+      · rename_i len r' _
+        have : (len ≤ r'.length) ↔ ((r'.take len).length = len) := by
+          rw [List.length_take]; omega
+        by_cases h : len ≤ r'.length
+        · rw [if_pos h, if_pos (this.mp h), ih]
+        · rw [if_neg h, if_neg (fun h' => h (this.mpr h'))]
+      · rfl
+    · rfl
+
 /-- `MThd 00000006 fmt ntrks division` then exactly `ntrks` chunks; `none` on anything else -/
 def parseSmf : List Nat → Option (Header × List (List Nat))
   | 77 :: 84 :: 104 :: 100 :: r =>
